@@ -355,7 +355,7 @@ MANIFEST = dict(
         "layout chosen by batch_first, evaluated under both values of the flag). Structural clauses of C03 ('followed only by padding', "
         "'zero where there are none', one loss position per hypothesis token); that the targets are exactly the "
         "distance-preserving tokens is value-level and not decided."
-        " optimal_completion itself (kernel in its mask mode included) is interpreted over exact values for four cost triples x eos / include_eos / layout / exclude_last and compared, prefix by prefix, with the tokens at which the pair's Levenshtein row is minimal - decided on that grid, not for all lengths. The completion table includes a cost triple whose substitution is dearer by one part in 100000 (row minima that close are not ties)."),
+        " optimal_completion itself (kernel in its mask mode included) is interpreted over exact values for four cost triples x eos / include_eos / layout / exclude_last and compared, prefix by prefix, with the tokens at which the pair's Levenshtein row is minimal - decided on that grid, not for all lengths. The completion table includes a cost triple whose substitution is dearer by one part in 100000 (row minima that close are not ties). A functional and its Module share one default per common option (G5)."),
     level_note="Trusted: python ast; torch cross_entropy semantics.",
     technique="static analysis: argument binding, literal/sentinel table agreement, expression-shape rules, layout-axis evaluation under the batch_first flag; interpretation of the loss tail over exact tensor values (syntax tree only) compared with the documented value for every reduction / layout / ignore index; optimal_completion interpreted completely over exact tensor values (syntax tree only) and compared with the minimal columns of a per-pair Levenshtein table on a finite grid",
     design_ref="DESIGN.md section 4 C03",
